@@ -75,7 +75,7 @@ Fixpoint bind_args (ev : list ast -> option str) (args : list (option str * list
   | (Some k, v) :: r =>
       match ev v, bind_args ev r i with
       | Some s, Some E => if too_long (trim s) then None
-                          else Some ((k, trim s) :: E)            (* named: trimmed *)
+                          else Some ((trim k, trim s) :: E)       (* named: name and value trimmed *)
       | _, _ => None
       end
   end.
@@ -219,6 +219,78 @@ Definition tpl_of (u : universe) (name : str) : option node :=
   | [] => None
   | _ => match ulookup u name with Some b => Some (compile_body b) | None => None end
   end.
+
+(* ------------------------------------------------------------------ compile_r: the expected parse when text leaves contain '='
+   templ/scanner.py makes every '=' a token of its own; Parser._parse_args (parser.py:137-162), which splits the arguments of
+   template calls, #if, #switch and the registered magic nodes (#ifeq), turns EVERY top-level '=' of an argument into
+   marks.eqmark.  Elsewhere (page/template top level, parameter defaults: variable_from_children) the token stays an ordinary
+   string and optimize() glues it to its neighbours.  `compile_r` differs from `compile` only in that the text leaves at the
+   top level of an argument are cut at each '=':  "a = b"  ->  "a " eqmark " b".   (compile_r p = compile p when no argument
+   text contains '=': Proofs, compile_r_noeq.) *)
+Fixpoint text_pieces (s : str) : list node :=
+  match s with
+  | [] => []
+  | c :: r => if N.eqb c 61 then NEq :: text_pieces r
+              else match text_pieces r with
+                   | NStr t :: q => NStr (c :: t) :: q
+                   | q => NStr [c] :: q
+                   end
+  end.
+
+(* first argument of a parser function: the text up to the first token after "#if:" is glued to the name token; it is ""
+   when the argument starts with '=' or with a brace *)
+Definition first_r (ps : list node) : list node :=
+  match ps with
+  | NStr _ :: _ => ps
+  | _ => NStr [] :: ps
+  end.
+
+Fixpoint compile_r (p : ast) : node :=
+  let cs := fun (l : list ast) => map compile_r l in
+  let ab := fun (l : list ast) =>
+              flat_map (fun x : ast => match x with Text s => text_pieces s | _ => [compile_r x] end) l in
+  match p with
+  | Text s => NStr s
+  | Param nm None => NVar [NStr nm]
+  | Param nm (Some d) => NVar [NStr nm; mkseq (cs d)]
+  | Call nm args =>
+      NTpl (NStr nm)
+           (map (fun a : option str * list ast =>
+                   match a with
+                   | (None, v) => mkseq (ab v)
+                   | (Some k, v) => mkseq (NStr k :: NEq :: ab v)
+                   end) args)
+  | If c t e =>
+      NIf (strip_ws_node (mkseq (first_r (ab c))) :: mkseq (ab t) ::
+           match e with Some el => [mkseq (ab el)] | None => [] end)
+  | IfEq a b t e =>
+      NIfEq (mkseq (first_r (ab a)) :: mkseq (ab b) :: mkseq (ab t) ::
+             match e with Some el => [mkseq (ab el)] | None => [] end)
+  | Switch sc cases d =>
+      NSwitch (strip_ws_node (mkseq (first_r (ab sc))))
+              (flat_map (fun kc : list (list ast) * list ast * list ast =>
+                           match kc with
+                           | (keys, lastk, v) =>
+                               map (fun k => mkseq (ab k)) keys ++
+                               [mkseq (ab lastk ++ NEq :: ab v)]
+                           end) cases
+               ++ match d with
+                  | Some (true, v) => [mkseq (NStr hash_default :: NEq :: ab v)]
+                  | Some (false, v) => [mkseq (ab v)]
+                  | None => []
+                  end)
+  end.
+
+Definition compile_body_r (b : body) : node := mkseq (map compile_r b).
+
+Definition tpl_of_r (u : universe) (name : str) : option node :=
+  match name with
+  | [] => None
+  | _ => match ulookup u name with Some b => Some (compile_body_r b) | None => None end
+  end.
+
+Definition impl_expand_r (u : universe) (dn : list str) (limit : nat) (page : body) : res str :=
+  expand (tpl_of_r u) (fun _ => false) (fun _ _ => MDone []) dn limit (compile_body_r page).
 
 (* the implementation model instantiated for a universe without magic names *)
 Definition impl_flatten (u : universe) (dn : list str) := flatten (tpl_of u) (fun _ => false) (fun _ _ => MDone []) dn.
